@@ -163,6 +163,98 @@ func concurrentRecover(g *cryptoutil.Group, workers, iterations int) {
 	emit("ConcurrentRecover", map[string]interface{}{"n": g.N, "goroutines": workers, "iterations": iterations, "mismatches": mm, "verifyFailures": ff})
 }
 
+// concurrentDKG: several groups are created in ONE process at the same time (a miner takes part in several
+// key generations at once), and inside each group the dealers deal at the same time. Afterwards every group
+// is judged alone by the clauses of a sequential key generation: one group key (the sum of the dealers'
+// public seeds), and the first and the last threshold members recover the same signature, valid under it
+// (pieces that do not lie on one polynomial give subsets that disagree). A panic is an outcome.
+func concurrentDKG(seed int64, goroutines, rounds int, sizes []int) {
+	type res struct {
+		g        *cryptoutil.Group
+		panicked string
+		err      string
+	}
+	total := goroutines * rounds
+	results := make([]res, total)
+	var wg sync.WaitGroup
+	for w := 0; w < goroutines; w++ {
+		wg.Add(1)
+		go func(w int) {
+			defer wg.Done()
+			rng := rand.New(rand.NewSource(seed*1000 + int64(w)))
+			for r := 0; r < rounds; r++ {
+				slot := w*rounds + r
+				func() {
+					defer func() {
+						if x := recover(); x != nil {
+							results[slot].panicked = fmt.Sprint(x)
+						}
+					}()
+					n := sizes[(w+r)%len(sizes)]
+					g, err := cryptoutil.RunDKGOpts(rng, n, fmt.Sprintf("c13-concdkg-%d-%d", w, r), cryptoutil.Opts{ConcurrentDeal: true})
+					if pe, ok := err.(*cryptoutil.PanicError); ok {
+						results[slot].panicked = pe.What
+					} else if err != nil {
+						results[slot].err = err.Error()
+					}
+					results[slot].g = g
+				}()
+			}
+		}(w)
+	}
+	wg.Wait()
+	panics, errs, gpkDisagree, sumMismatch, verifyFailures, mismatches := 0, 0, 0, 0, 0, 0
+	first := ""
+	for i, r := range results {
+		if r.panicked != "" {
+			panics++
+			if first == "" {
+				first = r.panicked
+			}
+			continue
+		}
+		if r.err != "" || r.g == nil {
+			errs++
+			continue
+		}
+		g := r.g
+		agree := true
+		for j := 1; j < g.N; j++ {
+			agree = agree && g.GPK[j].IsEqual(g.GPK[0])
+		}
+		if !agree {
+			gpkDisagree++
+		}
+		if sum := groupsig.AggregatePubkeys(g.SeedPK); sum == nil || !sum.IsEqual(g.GPK[0]) {
+			sumMismatch++
+		}
+		k := model.Param.GetGroupK(g.N)
+		msg := cryptoutil.HashOf("c13-concdkg", i).Bytes()
+		var sigs [][]byte
+		for _, lo := range []int{0, g.N - k} {
+			m := map[string]groupsig.Signature{}
+			for j := lo; j < lo+k; j++ {
+				m[g.IDs[j].GetHexString()] = groupsig.Sign(g.SignSK[j], msg)
+			}
+			sig, panicked := recoverDirect(m, k)
+			if panicked || sig == nil || !groupsig.VerifySig(g.GPK[0], msg, *sig) {
+				verifyFailures++
+				continue
+			}
+			sigs = append(sigs, sig.Serialize())
+		}
+		if len(sigs) == 2 && !bytes.Equal(sigs[0], sigs[1]) {
+			mismatches++
+		}
+	}
+	if len(first) > 200 {
+		first = first[:200]
+	}
+	emit("ConcurrentDkg", map[string]interface{}{"goroutines": goroutines, "groups": total, "panics": panics, "firstPanic": first,
+		"errors": errs, "gpkDisagree": gpkDisagree, "gpkNotSumOfDealerPubs": sumMismatch,
+		"verifyFailures": verifyFailures, "mismatches": mismatches})
+}
+
 // curStyle is the id style of the group the current recoveries belong to (part of the Recovered events).
 var curStyle = "random"
 
@@ -249,6 +341,7 @@ func main() {
 	ksweep := flag.Int("ksweep", 0, "emit, for n = 1..ksweep, the threshold the signing side uses (GetGroupK) and the one the DKG deals with")
 	structuredSizes := flag.String("structured", "", "comma separated group sizes for the groups with structured member ids")
 	big := flag.String("big", "", "comma separated group sizes for one DKG + one recovery each (sizes beyond the default maximum)")
+	concDkg := flag.String("concdkg", "", "goroutines,rounds: that many key generations at the same time in this process, that many times")
 	flag.Parse()
 	if *scratch == "" {
 		vutil.Fatalf("--scratch required")
@@ -362,8 +455,16 @@ func main() {
 		}
 		structured(rng, sizes, *reps, counts, &idx)
 	}
+	if *concDkg != "" {
+		var gor, rounds int
+		if _, err := fmt.Sscanf(*concDkg, "%d,%d", &gor, &rounds); err != nil {
+			vutil.Fatalf("--concdkg: %v", err)
+		}
+		concurrentDKG(vutil.Seed()+*salt, gor, rounds, []int{5, 7, 9, 4})
+		counts["concurrentDkg"] += gor * rounds
+	}
 	tr.Close()
-	fmt.Printf("c13: redeal=%d structuredCases=%d cases=%d dkg=%d deliver=%d dupDeliver=%d arrive=%d recovered=%d superset=%d below=%d k=%d big=%d concurrent=%d events=%d\n",
-		counts["redeal"], counts["structuredCases"], counts["cases"], counts["dkg"], counts["deliver"], counts["dupDeliver"], counts["arrive"], counts["recovered"],
+	fmt.Printf("c13: concurrentDkg=%d redeal=%d structuredCases=%d cases=%d dkg=%d deliver=%d dupDeliver=%d arrive=%d recovered=%d superset=%d below=%d k=%d big=%d concurrent=%d events=%d\n",
+		counts["concurrentDkg"], counts["redeal"], counts["structuredCases"], counts["cases"], counts["dkg"], counts["deliver"], counts["dupDeliver"], counts["arrive"], counts["recovered"],
 		counts["superset"], counts["below"], counts["k"], counts["big"], counts["concurrent"], tr.N)
 }
